@@ -610,3 +610,32 @@ def compute_step_verdict(fn):
         if len(sts) != 1 or not ok:
             return "bad", "the slope of stage %d is not stored at [..., %d] of the output array (stores: %s)" % (i, i, [(k, j) for k, j, _ in sts])
     return "ok", "for %d concrete stages: stage i evaluated at (t0 + c_i h, y0 + h sum_j a_ij k_j) and stored at [..., i]" % NS
+
+
+def weighted_sum_verdict(expr, step_param, row=0, table="tableau_final", scaled=True):
+    """interpret the propagated increment (or the error estimate): expr must denote  [h *] sum_j w_j k_j  with w = row `row` of the weights table (columns 1..),
+    laid out as the state.  -> ('ok'|'bad'|'unknown', detail)"""
+    K = Tn(("D", ("S", NS)), {(j,): Poly.atom("k%d" % j) for j in range(NS)})
+    tf = Tn((("S", 2), ("S", NS + 1)), {})
+    for r in range(2):
+        tf.data[(r, 0)] = Poly.atom("z%d" % r)
+        for j in range(NS):
+            tf.data[(r, 1 + j)] = Poly.atom("b%d_%d" % (r, j))
+    it = Interp({step_param: Tn.scalar(Poly.atom("h"))} if step_param else {}, {"stage_values": K, table: tf}, rhs_names=[])
+    try:
+        v = it.tensor(expr)
+    except AxisError as e:
+        return "bad", str(e)
+    except Unknown as e:
+        return "unknown", str(e)
+    if v.axes != ("D",):
+        return "bad", "the weighted sum of the stage slopes has axes %s, not the state's (summed over the wrong axis, or not summed at all)" % (v.axes,)
+    want = Poly()
+    for j in range(NS):
+        w = tf.data[(row, 1 + j)] if not isinstance(row, tuple) else tf.data[(row[0], 1 + j)] - tf.data[(row[1], 1 + j)]
+        want = want + w * K.data[(j,)]
+    if scaled:
+        want = want * Poly.atom("h")
+    if v.data[()] - want:
+        return "bad", "it evaluates to %s, not %s" % (v.data[()].canon()[:140], want.canon()[:140])
+    return "ok", "= %s for %d concrete stages" % (want.canon()[:80], NS)
